@@ -313,3 +313,23 @@ func TestReplay(t *testing.T) {
 		t.Fatalf("replay of %s/%s fails: %v", cf.Property, cf.Sub, err)
 	}
 }
+
+// TestMakePinned (re)writes the hand-built pinned cases of this property into
+// $VERIF_MAKE_PINNED (maintenance helper, not part of any tier).
+func TestMakePinned(t *testing.T) {
+	dir := os.Getenv("VERIF_MAKE_PINNED")
+	if dir == "" {
+		t.Skip("VERIF_MAKE_PINNED not set")
+	}
+	c := &Case{
+		Data: gen.DataSpec{Explicit: []model.Row{{"a\x00b": "c"}, {"a": "b\x00c"}, {"a": "z"}}},
+		Exprs: []model.Expr{model.Eq("a", "b\x00c"), model.Eq("a\x00b", "c"), model.Not(model.Eq("a", "b\x00c"))},
+	}
+	err := oracle(c)
+	if err == nil {
+		t.Fatalf("the NUL-column case does not fail any more: remove the known finding")
+	}
+	os.Setenv("VERIF_REPLAY_DIR", dir)
+	p := evid.WriteCase(prop, "count", c, c.Summary(), err)
+	t.Logf("written %s: %v", p, err)
+}
